@@ -306,10 +306,15 @@ class Lexer:
 
             ([\w\.\:]+)   # keyword
 
-            ((?:\s+\w+|\s*=\s*|"[^"]*?"|'[^']*?'|\s*,\s*)*)  # attrname, = \
-                                               #        sign, string expression
-                                               # comma is for backwards compat
-                                               # identified in #366
+            # attrname, = sign, string expression; comma is for backwards
+            # compat identified in #366.  White space goes to the item that
+            # follows it, and a string that directly follows = or , belongs
+            # to that item, so that the alternation can be matched in one way
+            # only (no exponential backtracking on an unclosed tag)
+            ((?:\s+\w+
+                |\s*[=,](?:\s*(?:"[^"]*?"|'[^']*?'))?
+                |(?<![=,])(?:"[^"]*?"|'[^']*?')
+             )*)
 
             \s*     # more whitespace
 
